@@ -75,7 +75,7 @@ def gen(rng, knobs):
                 script.append(["barrier"])
         clients.append({"script": script, "slow": rng.random() < 0.15})
     return {"backend": backend, "actions": actions, "assign": assign, "preload": pre, "whitelist": whitelist,
-            "clients": clients}
+            "restart": rng.random() < 0.3, "clients": clients}
 
 
 def sample(case):
@@ -115,6 +115,19 @@ def run(case, sim):
                 assigned[pub] = set(roles.lower())
             except Exception as e:
                 readback.append([pub[:8], roles, "ERR %s: %s" % (type(e).__name__, e)])
+        if case.get("restart"):
+            # the relay is restarted: what was assigned last is what a fresh process reads back and enforces
+            await sim.quiescent()
+            await world.env.close()
+            await world.env.open(create=False)
+            await sim.quiescent()
+            st = world.env.storage
+            for pub, want in list(assigned.items()):
+                try:
+                    got = await st.get_auth_roles(pub)
+                    readback.append([pub[:8], "".join(sorted(want)), sorted(got)])
+                except Exception as e:
+                    readback.append([pub[:8], "".join(sorted(want)), "ERR %s: %s" % (type(e).__name__, e)])
     w.before_clients = before
     w.run()
     viol = []
